@@ -86,10 +86,11 @@ def check(acc, job):
                 for fi, ((lo, hi), f) in enumerate(zip(idx, frs)):
                     exp = [norm[i] for i in range(bounds[fi], bounds[fi + 1]) if i in norm and lines[i] and is_data(lines[i]) and not lines[i].startswith('**')]
                     acc.count('transitions')
-                    if hi < lo or (hi == 0 and lo == 0):
+                    if hi < lo or (hi == 0 and lo == 0 and exp):
                         if exp:
                             acc.violation(Viol(cls, 'fragment-with-data-has-an-empty-pair', dict(case, fragment=fi), exp, (lo, hi)))
                         continue
+                    # (a header-only first fragment has the pair (0, 0): exporting it must give no data line at all)
                     try:
                         o = kp.dumps(doc, from_measure=lo, to_measure=hi)
                     except Exception as e:  # noqa
